@@ -49,3 +49,10 @@ HOOK_COMMITS[:] = ["0496db9", "af87284"]
 add("C08", "exploration", "runtime monitor: cooperative scheduler on the verif yield hook (bounded-preemption enumeration + random + PCT schedules) and free-running stress under the Go race detector, judged by the block-tree oracle",
     "Mode A drives 8 commit-vs-lookup scenarios through every schedule with at most 3 (quick) / 4 (thorough) preemptions plus tens of thousands of random and PCT schedules at the granularity of single shared-map accesses; mode B runs 120 (quick) / 1 500 (thorough) multi-committer/multi-reader executions with hook-injected delays in the -race binary. Every hit must equal the tree-determined value, post-commit lookups must hit, a quiescent sweep follows every schedule; race reports are violations.",
     "Schedule granularity is that of the hook's yield points; one committer at a time in mode A; race freedom only for interleavings that occurred.")
+
+add("C09", "exploration", "runtime monitor: (key -> value, weight) model with an independent reference hasher; total weight after every step, root/owner/proof of every block after every commit, GC pass and reload",
+    "16 000 (quick) / 400 000 (thorough) histories of updates, overwrites, deletes, commits at collapse levels 0-5, GC passes and reloads over keys sharing nibble prefixes of every length; after every commit, GC pass and reload every block 1..W is proven and compared with the model owner and an independent root computation; every 50th history runs on real pebble.",
+    "Weight is a function of the value; GC and reload are issued only on a clean trie (dirty-trie GC is C11's subject).")
+add("C10", "exploration", "runtime monitor: honest proofs of every block verified against the reference root; structured tampering classes T1-T8 replayed against VerifyBlockProof with a forged-value oracle and a classifier for the known weakness",
+    "1 280 (quick) / 48 000 (thorough) tries; honest half checks every block; adversarial half submits about 5 million (quick) tampered proofs (re-weighting, sibling swaps, substitution from other blocks/positions/tries, drop/dup/reorder/truncate, field edits, type confusion, bit flips, splices); a violation is a forged proof that verifies to the trusted root with a wrong value.",
+    "Structured tamperings and random edits only, not all byte strings; sum-preserving re-weightings are the known finding reweight-sum-preserving.")
